@@ -286,6 +286,35 @@ def _d_crossing(chk):
                       f"section {sec}: sign(old)={a}, sign(new)={b}, direction quantity {d}: crossed={crossed}, expected {want} (strict sign change in the documented direction; "
                       f"alpha = f_old/(f_old - f_new))", sample=f"{sec}: ({a},{b},{d}) -> {want}", nontrivial=(want or (a != b)))
     chk.count("order-abstract evaluations", n)
+    # the direction quantity must not vanish on the section itself: with the quadratic centre-manifold Hamiltonian
+    # H2 = w2/2 (q2^2+p2^2) + w3/2 (q3^2+p3^2) (what C04.f / C08.a establish) the right-hand side is q' = w p, p' = -w q; a filter
+    # on a quantity that is zero on the section at this order is decided by higher-order coupling terms as the step size
+    # shrinks, i.e. it no longer selects one crossing direction (both directions are then recorded as 'returns')
+    w2, w3, eps = sp.Symbol("w2", positive=True), sp.Symbol("w3", positive=True), sp.Symbol("eps", real=True)
+    for sec, idx in slot.items():
+        st_new = [sp.Integer(0), sp.Symbol("Q2", real=True), sp.Symbol("Q3", real=True), sp.Integer(0), sp.Symbol("P2", real=True), sp.Symbol("P3", real=True)]
+        st_new[idx] = eps
+        rhs_h2 = [sp.Integer(0), w2 * st_new[4], w3 * st_new[5], sp.Integer(0), -w2 * st_new[1], -w3 * st_new[2]]
+        st_old = list(st_new)
+        st_old[idx] = -eps
+        asked = []
+
+        def dec(cond, asked=asked):
+            asked.append(cond)
+            if cond.has(eps) and isinstance(cond, (sp.Ge, sp.Gt, sp.Le, sp.Lt)) and sp.simplify((cond.lhs - cond.rhs) + eps ** 2) == 0:
+                return False                  # f_old*f_new >= 0 : there is a sign change
+            return True
+
+        Interp(decide=dec).call_function(CB, "_detect_crossing", [sec, to_obj_array(st_old), to_obj_array(st_new), to_obj_array(rhs_h2), n_dof])
+        dirs = [c for c in asked if isinstance(c, (sp.Gt, sp.Lt, sp.Ge, sp.Le)) and not sp.simplify((c.lhs - c.rhs) + eps ** 2) == 0]
+        if not dirs:
+            raise AnalysisError(f"_detect_crossing[{sec}]: no direction test found on the crossing path")
+        dq = sp.simplify((dirs[-1].lhs - dirs[-1].rhs))
+        on_section = sp.simplify(dq.subs(eps, 0))
+        chk.check(on_section != 0, "C14.d", f"{CB}::_detect_crossing[{sec},direction quantity]",
+                  f"section {sec}: the direction filter tests {dq} > 0, which vanishes on the section (= {on_section} at {sec} = 0 for the quadratic Hamiltonian): as the step shrinks its sign is "
+                  f"set by higher-order coupling terms, so crossings in both directions are recorded and 'returns' come every half period",
+                  sample=f"{sec}: direction quantity {dq} is non-zero on the section")
 
 
 def _d_refinement(chk):
